@@ -18,7 +18,7 @@ instance (m : CMod) (p q : Int) : Decidable (Member m p q) := by unfold Member; 
 def landed (m : CMod) (s : St) (seq p : Int) : St :=
   let sc := m.seqAt seq
   let f1 : Flow := if p > sc.scanOrd then { s.f with endPoint := 0 }
-    else { s.f with numRows := m.rowsOf (m.xxoAt p), endPoint := sc.scanNum, jumpline := 0 }
+    else { s.f with endPoint := sc.scanNum, jumpline := 0 }
   { s with sequence := seq, pos := (if p = 0 then -1 else p), f := resetFlow f1 }
 
 theorem skipMarkers_nomark (m : CMod) (dir start : Int) (n : Nat) (pos : Int)
